@@ -733,6 +733,7 @@ impl Actor for P {
     type Random = u8;
     fn on_start(&self, _id: Id, o: &mut Out<Self>) -> u32 {
         if self.reacts { o.set_timer(1, std::time::Duration::from_secs(1)..std::time::Duration::from_secs(1)); o.set_timer(2, std::time::Duration::from_secs(1)..std::time::Duration::from_secs(1)); o.choose_random("k", vec![5, 6]); o.choose_random("j", vec![7]); }
+        else { o.set_timer(9, std::time::Duration::from_secs(1)..std::time::Duration::from_secs(1)); }
         0
     }
     fn on_msg(&self, _id: Id, state: &mut Cow<u32>, src: Id, msg: u8, o: &mut Out<Self>) {
@@ -787,7 +788,7 @@ fn verif_actor_step_is_one_atomic_handler_step() {
         // ---- start-up: on_start once per actor, its commands applied for that actor
         {
             let t0: Vec<u8> = { let mut v: Vec<u8> = s0.timers_set[0].iter().copied().collect(); v.sort(); v };
-            if t0 != vec![1, 2] || s0.timers_set[1].iter().count() != 0 || !s0.random_choices[0].map.contains_key("k") || !s0.random_choices[0].map.contains_key("j") || !s0.random_choices[1].map.is_empty()
+            if t0 != vec![1, 2] || s0.timers_set[1].iter().copied().collect::<Vec<u8>>() != vec![9] || !s0.random_choices[0].map.contains_key("k") || !s0.random_choices[0].map.contains_key("j") || !s0.random_choices[1].map.is_empty()
                 || s0.actor_states.len() != 2 || s0.network.len() != 2 || !s0.history.is_empty() { bad("start-up: each actor's on_start commands are applied to that actor, nothing else changes"); }
         }
         // ---- Deliver 3: one handler call; state replaced; sends in order; timers as commanded; hooks in/out/out
@@ -803,7 +804,7 @@ fn verif_actor_step_is_one_atomic_handler_step() {
         let t: Vec<u8> = { let mut v: Vec<u8> = s1.timers_set[0].iter().copied().collect(); v.sort(); v };
         if t != vec![1, 3] { bad("timers are set and cancelled as commanded"); }
         if s1.history != vec!["in Id(1)->Id(0) 3".to_string(), "out Id(0)->Id(1) 4".to_string(), "out Id(0)->Id(1) 5".to_string()] { bad("history hooks see the received message first, then each sent message in order"); }
-        if s1.crashed != s0.crashed || s1.timers_set[1].iter().count() != 0 { bad("nothing else in the system state changes"); }
+        if s1.crashed != s0.crashed || s1.timers_set[1].iter().copied().collect::<Vec<u8>>() != vec![9] { bad("nothing else in the system state changes"); }
         // ---- Deliver 0: a delivery that changes nothing: no transition on unordered networks, a transition (message consumed) on ordered ones
         let r = m.next_state(&s0, ActorModelAction::Deliver { src: a1, dst: a0, msg: 0 });
         if !ordered && r.is_some() { bad("a delivery that changes nothing yields no transition on unordered networks"); }
